@@ -1386,6 +1386,10 @@ func (w *svWorkload) intentAt(v *svSnap, ix int) (rig.Tx, bool) {
 			switch rng.Intn(5) {
 			case 0:
 				upd.RepeatedFrequency = uint64(rc.Timeout) + uint64(rng.Intn(4))
+				if rc.Timeout > 1 && rng.Intn(3) == 0 {
+					// only the frequency, set below the timeout the context keeps (must be refused)
+					upd.RepeatedFrequency = uint64(1 + rng.Intn(int(rc.Timeout)-1))
+				}
 			case 1:
 				upd.Timeout = int64(1 + rng.Intn(int(rc.RepeatedFrequency)+1))
 			case 2:
